@@ -122,6 +122,32 @@ HARMONIC_VARIANTS = {
     "piecewise_bounding": {"Coulomb": {"event_handler": "pair_event_handler (two_leaf_unit_event_handler_with_piecewise_constant_bounding_potential)"},
                            "PairEventHandler": {"potential": "displaced_even_power_potential", "offset": 10.0, "max_displacement": 0.025}},
 }
+# a bond made of TWO pair factors of the same potential class under two aliases with different parameters (legitimate configuration
+# glue: 'alias (real_class_name)' sections of base/factory.py): U(r) = K2 (r - r0)^2 + K4 (r - r0)^4
+ANH_BETA, ANH_K2, ANH_K4, ANH_R0 = 1.0, 20.0, 40000.0, 0.2
+_ANH_TAGS = "harmonic, quartic"
+
+
+def anharmonic_overrides(factor_file):
+    pair = lambda name: {"create": _ANH_TAGS, "trash": _ANH_TAGS, "event_handler": f"{name}_event_handler (two_leaf_unit_event_handler)",
+                         "number_event_handlers": 1, "factor_type_maps": "factor_type_maps"}
+    return {
+        "HypercubicSetting": {"beta": ANH_BETA},
+        "TagActivator": {"taggers": "harmonic (factor_type_map_in_state_tagger), quartic (factor_type_map_in_state_tagger), "
+                                    "sampling (no_in_state_tagger), end_of_chain (active_global_state_in_state_tagger), "
+                                    "start_of_run (no_in_state_tagger), end_of_run (no_in_state_tagger)"},
+        "FactorTypeMaps": {"filename": factor_file},
+        "Harmonic": pair("harmonic"), "Quartic": pair("quartic"),
+        "HarmonicEventHandler": {"potential": "harmonic_potential (displaced_even_power_potential)"},
+        "QuarticEventHandler": {"potential": "quartic_potential (displaced_even_power_potential)"},
+        "HarmonicPotential": {"equilibrium_separation": ANH_R0, "prefactor": ANH_K2, "power": 2},
+        "QuarticPotential": {"equilibrium_separation": ANH_R0, "prefactor": ANH_K4, "power": 4},
+        "EndOfChain": {"create": "end_of_chain, " + _ANH_TAGS, "trash": "end_of_chain, " + _ANH_TAGS},
+        "EndOfRun": {"trash": "end_of_chain, " + _ANH_TAGS + ", sampling, end_of_run"},
+        "StartOfRun": {"create": _ANH_TAGS + ", sampling, end_of_chain, end_of_run"},
+    }
+
+
 N_CORR = 4     # samples per effectively independent one (conservative; chains are long compared with the sampling interval)
 
 
@@ -169,6 +195,17 @@ def run(ctx):
         jobs.append({"ini": CFG + "coulomb_atoms/power_bounded.ini", "seed": ctx.seed * 10 + 2, "light": True, "model": "harmonic_pair",
                      "variant": label, "timeout": 1500,
                      "overrides": {**HARMONIC_COMMON, **ov, "FinalTimeEndOfRunEventHandler": {"end_of_run_time": ctx.n(1200, 12000)}}})
+    # anharmonic bond from two aliased sections of one potential class (factor file written into the private scratch tree)
+    import os
+    ff = os.path.join(ctx.root, "jellyfysh", "config_files", "factor_set_files", "verif_factor_set_anharmonic_pair.txt")
+    try:
+        with open(ff, "w") as f:
+            f.write("[0, 1], Harmonic\n[0, 1], Quartic\n")
+        jobs.append({"ini": CFG + "coulomb_atoms/power_bounded.ini", "seed": ctx.seed * 10 + 3, "light": True, "model": "anharmonic_pair",
+                     "variant": "two_aliased_sections", "timeout": 1500,
+                     "overrides": {**anharmonic_overrides(ff), "FinalTimeEndOfRunEventHandler": {"end_of_run_time": ctx.n(1200, 12000)}}})
+    except OSError as e:
+        ctx.notes.append(f"anharmonic pair not run: {e!r}")
     trs = runs.run_jobs(ctx.root, jobs, workers=12, timeout=1500)
     obs = {}
     for tr in trs:
@@ -246,5 +283,24 @@ def run(ctx):
         if d > c:
             ctx.fail("C01:variants-disagree:harmonic_pair:r", {"D": d, "critical": c, "seed": ctx.seed},
                      f"directly invertible events and thinned events of one model disagree (two-sample KS {d:.3f} > {c:.3f})")
+    # anharmonic pair (two aliased sections of one class) against p(r) ~ r^2 exp(-beta (K2 (r-r0)^2 + K4 (r-r0)^4))
+    w = [x * x * math.exp(-ANH_BETA * (ANH_K2 * (x - ANH_R0) ** 2 + ANH_K4 * (x - ANH_R0) ** 4)) for x in xs]
+    tot = sum(w)
+    acc, cs = 0.0, []
+    for v in w:
+        acc += v
+        cs.append(acc / tot)
+    sm = obs.get(("anharmonic_pair", "two_aliased_sections"), {}).get("r")
+    if sm:
+        d = ks_one(sm, xs, cs)
+        c = crit(len(sm) / N_CORR)
+        stats["anharmonic_pair/two_aliased_sections/r"] = {"n": len(sm), "D_ref": round(d, 4), "crit": round(c, 4)}
+        ctx.evaluations += 1
+        ctx.cls(("anharmonic_pair", "two_aliased_sections", "r"))
+        if d > c:
+            ctx.fail("C01:distribution-differs-from-reference:anharmonic_pair:r",
+                     {"variant": "two_aliased_sections", "samples": len(sm), "D": d, "critical": c, "seed": ctx.seed,
+                      "overrides": anharmonic_overrides("<factor file: [0, 1], Harmonic / [0, 1], Quartic>")},
+                     f"Kolmogorov-Smirnov distance {d:.3f} to the integrated Boltzmann distribution exceeds {c:.3f}")
     ctx.extra["statistics"] = stats
     ctx.sample({"statistics_head": dict(list(stats.items())[:4])})
